@@ -1,0 +1,206 @@
+//go:build verif
+
+// Contracts for deductive verification (read as text by /verif/engine; this
+// file is never compiled into the package: it is comment-only and guarded
+// by the build tag verif).
+
+package semver
+
+// ---------------------------------------------------------------------------
+// C01: every comparator is a total preorder.
+// Layer 1: NuGet's case-insensitive prerelease comparison (first-exit loop
+// over bytes; summary derived by the generator).
+
+//@ lemma compareNugetPrerelease.range
+//@   vars a, b string
+//@   unfold compareNugetPrerelease
+//@   ensures -1 <= compareNugetPrerelease(a, b) && compareNugetPrerelease(a, b) <= 1
+//@   property C01
+//@   export
+
+//@ lemma compareNugetPrerelease.refl
+//@   vars a string
+//@   unfold compareNugetPrerelease
+//@   ensures compareNugetPrerelease(a, a) == 0
+//@   property C01
+//@   export
+
+//@ lemma compareNugetPrerelease.antisym
+//@   vars a, b string
+//@   unfold compareNugetPrerelease
+//@   ensures compareNugetPrerelease(a, b) == -compareNugetPrerelease(b, a)
+//@   property C01
+//@   export
+
+//@ lemma compareNugetPrerelease.trans
+//@   vars a, b, c string
+//@   unfold compareNugetPrerelease
+//@   requires compareNugetPrerelease(a, b) <= 0 && compareNugetPrerelease(b, c) <= 0
+//@   ensures compareNugetPrerelease(a, c) <= 0
+//@   ensures imp(compareNugetPrerelease(a, b) < 0 || compareNugetPrerelease(b, c) < 0, compareNugetPrerelease(a, c) < 0)
+//@   property C01
+//@   export
+
+//@ opaque compareNugetPrerelease
+
+// Layer 2: one prerelease element against another (loop-free; inlined).
+
+//@ lemma compareElem.range
+//@   vars sys System; a, b string
+//@   unfold compareElem
+//@   ensures -1 <= compareElem(sys, a, b) && compareElem(sys, a, b) <= 1
+//@   property C01
+//@   export
+
+//@ lemma compareElem.refl
+//@   vars sys System; a string
+//@   unfold compareElem
+//@   ensures compareElem(sys, a, a) == 0
+//@   property C01
+//@   export
+
+//@ lemma compareElem.antisym
+//@   vars sys System; a, b string
+//@   unfold compareElem
+//@   ensures compareElem(sys, a, b) == -compareElem(sys, b, a)
+//@   property C01
+//@   export
+
+//@ lemma compareElem.trans
+//@   vars sys System; a, b, c string
+//@   unfold compareElem
+//@   requires compareElem(sys, a, b) <= 0 && compareElem(sys, b, c) <= 0
+//@   ensures compareElem(sys, a, c) <= 0
+//@   ensures imp(compareElem(sys, a, b) < 0 || compareElem(sys, b, c) < 0, compareElem(sys, a, c) < 0)
+//@   property C01
+//@   export
+
+//@ opaque compareElem
+
+// Layer 3: prerelease lists (first-exit loop).
+
+//@ lemma comparePrerelease.range
+//@   vars a, b *Version
+//@   unfold comparePrerelease
+//@   requires a != nil && b != nil
+//@   ensures -1 <= comparePrerelease(a, b) && comparePrerelease(a, b) <= 1
+//@   property C01
+//@   export
+
+//@ lemma comparePrerelease.refl
+//@   vars a *Version
+//@   unfold comparePrerelease
+//@   requires a != nil
+//@   ensures comparePrerelease(a, a) == 0
+//@   property C01
+//@   export
+
+//@ lemma comparePrerelease.antisym
+//@   vars a, b *Version
+//@   unfold comparePrerelease
+//@   requires a != nil && b != nil && a.sys == b.sys
+//@   ensures comparePrerelease(a, b) == -comparePrerelease(b, a)
+//@   property C01
+//@   export
+
+//@ lemma comparePrerelease.trans
+//@   vars a, b, c *Version
+//@   unfold comparePrerelease
+//@   requires a != nil && b != nil && c != nil && a.sys == b.sys && b.sys == c.sys
+//@   requires comparePrerelease(a, b) <= 0 && comparePrerelease(b, c) <= 0
+//@   ensures comparePrerelease(a, c) <= 0
+//@   ensures imp(comparePrerelease(a, b) < 0 || comparePrerelease(b, c) < 0, comparePrerelease(a, c) < 0)
+//@   property C01
+//@   export
+
+//@ opaque comparePrerelease
+
+//@ opaque (*gemExtension).compare (*mavenExtension).compare (*pep440Extension).compare
+
+// Layer 4 (the property itself, SemVer family): compare on versions without
+// an extension. Statement taken from the property text: reflexive,
+// sign-antisymmetric, transitive, and equal versions compare identically
+// against every third version.
+
+//@ pred sameSys(a *Version, b *Version) = a != nil && b != nil && a.sys == b.sys
+//@ pred plain(a *Version) = a != nil && a.ext == nil
+
+//@ lemma compare.semver.range
+//@   vars a, b *Version
+//@   unfold compare
+//@   requires plain(a) && plain(b) && sameSys(a, b)
+//@   ensures -1 <= compare(a, b) && compare(a, b) <= 1
+//@   property C01
+
+//@ lemma compare.semver.refl
+//@   vars a, a2 *Version
+//@   unfold compare
+//@   requires plain(a)
+//@   ensures compare(a, a) == 0
+//@   property C01
+
+//@ lemma compare.semver.antisym
+//@   vars a, b *Version
+//@   unfold compare
+//@   requires plain(a) && plain(b) && sameSys(a, b)
+//@   ensures compare(a, b) == -compare(b, a)
+//@   property C01
+
+//@ lemma compare.semver.trans
+//@   vars a, b, c *Version
+//@   unfold compare
+//@   requires plain(a) && plain(b) && plain(c) && sameSys(a, b) && sameSys(b, c)
+//@   requires compare(a, b) <= 0 && compare(b, c) <= 0
+//@   ensures compare(a, c) <= 0
+//@   property C01
+
+//@ lemma compare.semver.congruence
+//@   vars a, b, c *Version
+//@   unfold compare
+//@   requires plain(a) && plain(b) && plain(c) && sameSys(a, b) && sameSys(b, c)
+//@   requires compare(a, b) == 0
+//@   ensures compare(a, c) == compare(b, c)
+//@   property C01
+
+// RubyGems: numbers, then the prerelease element list of the extension.
+
+//@ pred gem(a *Version) = a != nil && a.sys == RubyGems && hastype(a.ext, "*gemExtension") &&
+//@      a.ext.(*gemExtension) != nil && a.ext.(*gemExtension).version == a &&
+//@      forall(i, 0, len(a.ext.(*gemExtension).elems), a.ext.(*gemExtension).elems[i].str != "0")
+
+//@ lemma compare.gem.range
+//@   vars a, b *Version
+//@   unfold compare (*gemExtension).compare
+//@   requires gem(a) && gem(b)
+//@   ensures -1 <= compare(a, b) && compare(a, b) <= 1
+//@   property C01
+
+//@ lemma compare.gem.refl
+//@   vars a *Version
+//@   unfold compare (*gemExtension).compare
+//@   requires gem(a)
+//@   ensures compare(a, a) == 0
+//@   property C01
+
+//@ lemma compare.gem.antisym
+//@   vars a, b *Version
+//@   unfold compare (*gemExtension).compare
+//@   requires gem(a) && gem(b)
+//@   ensures compare(a, b) == -compare(b, a)
+//@   property C01
+
+//@ lemma compare.gem.trans
+//@   vars a, b, c *Version
+//@   unfold compare (*gemExtension).compare
+//@   requires gem(a) && gem(b) && gem(c)
+//@   requires compare(a, b) <= 0 && compare(b, c) <= 0
+//@   ensures compare(a, c) <= 0
+//@   property C01
+
+//@ lemma compare.gem.congruence
+//@   vars a, b, c *Version
+//@   unfold compare (*gemExtension).compare
+//@   requires gem(a) && gem(b) && gem(c)
+//@   requires compare(a, b) == 0
+//@   ensures compare(a, c) == compare(b, c)
+//@   property C01
